@@ -166,6 +166,8 @@ theorem im_frame (t : Tree) : ∀ (x : Ctx) (s : ISt), Frame s (im t x s) := by
           exact frame_unload (s := s) (s1 := { s0 with top := out.ws ++ s0.top, ev := s0.ev ++ out.evs }) wrapped (by rw [hs0]) hp1
         | some to =>
           simp only
+          split
+          · trivial
           have hb := ih ⟨to, x.f.and fl, false, x.h⟩ { s0 with top := out.ws ++ s0.top, ev := s0.ev ++ out.evs }
           cases hr : im cb ⟨to, x.f.and fl, false, x.h⟩ { s0 with top := out.ws ++ s0.top, ev := s0.ev ++ out.evs } with
           | norm s2 =>
